@@ -586,6 +586,76 @@ func manyShort(id string, seed uint64, n int) runner.Result {
 	return res
 }
 
+// firstMessageOfPrefixLength: a client of the default listener whose first message is exactly as long as
+// the prefix (or one byte longer, or shorter and then completed) and who then waits for an answer
+// without sending more. The server reads with a large buffer: it must get those bytes while the
+// client waits, not once the client sends more or hangs up.
+func firstMessageOfPrefixLength(id string, seed uint64) runner.Result {
+	r := &payload.SplitMix{S: seed}
+	plen := []int{1, 4, 8}[r.Intn(3)]
+	extra := r.Intn(3) // bytes beyond the prefix in the first message
+	base := newBase()
+	mux := drpcmigrate.NewListenMux(base, plen)
+	ctx, cancel := context.WithCancel(context.Background())
+	defer cancel()
+	rig.Go("Run", func() (interface{}, error) { return nil, mux.Run(ctx) })
+	mux.Route(string(bytes.Repeat([]byte{'R'}, plen))) // some other route exists
+	first := bytes.Repeat([]byte{'h'}, plen+extra)
+	pair := simnet.New(simnet.Opts{Cap: -1})
+	var mu sync.Mutex
+	var got []byte
+	reader := rig.Go("server", func() (interface{}, error) {
+		c, err := mux.Default().Accept()
+		if err != nil {
+			return nil, err
+		}
+		buf := make([]byte, 4096)
+		for {
+			n, err := c.Read(buf)
+			mu.Lock()
+			got = append(got, buf[:n]...)
+			mu.Unlock()
+			census.Bump()
+			if err != nil {
+				return nil, nil
+			}
+		}
+	})
+	base.ch <- pair.B
+	split := r.Intn(plen + 1)
+	pair.A.Write(first[:split])
+	if r.Intn(2) == 0 {
+		census.Quiesce(rig.Watchdog)
+	}
+	pair.A.Write(first[split:])
+	census.Quiesce(rig.Watchdog)
+	mu.Lock()
+	seen := append([]byte(nil), got...)
+	mu.Unlock()
+	desc := fmt.Sprintf("plen=%d: the client of the default listener sends %d bytes (split at %d) and waits for an answer; the server reads with a 4096-byte buffer", plen, len(first), split)
+	var fails []string
+	if !bytes.Equal(seen, first) {
+		fails = append(fails, fmt.Sprintf("while the client waits the server has read %d of the %d bytes it sent (%q)", len(seen), len(first), clip(seen)))
+	}
+	pair.A.Write([]byte("more"))
+	pair.A.Close()
+	census.Quiesce(rig.Watchdog)
+	mu.Lock()
+	if len(fails) == 0 && !bytes.Equal(got, append(append([]byte(nil), first...), "more"...)) {
+		fails = append(fails, fmt.Sprintf("in the end the server read %q, want the client's stream unmodified", clip(got)))
+	}
+	mu.Unlock()
+	cancel()
+	census.Quiesce(rig.Watchdog)
+	_ = reader
+	if len(fails) > 0 {
+		return runner.Violation(id, "mux:default-connection-withholds-bytes-the-client-sent", desc+"\n"+strings.Join(fails, "\n"))
+	}
+	res := runner.Hold(id, desc, true)
+	res.Events = 3
+	return res
+}
+
 // registeredBefore reports whether the route for the client's prefix was
 // registered before the client connection was handed to the base listener.
 func registeredBefore(steps []string, c *client) bool {
@@ -948,6 +1018,10 @@ func gen(tier string, seed uint64) []runner.Scenario {
 		out = append(out, runner.Scenario{ID: id, Run: func() runner.Result { return muxScenario(id, payload.Hash(seed, 0x16, uint64(i))) }})
 		id2 := fmt.Sprintf("header/%d", i)
 		out = append(out, runner.Scenario{ID: id2, Run: func() runner.Result { return headerScenario(id2, payload.Hash(seed, 0x161, uint64(i))) }})
+		if i%20 == 0 {
+			id5 := fmt.Sprintf("first-message-of-prefix-length/%d", i)
+			out = append(out, runner.Scenario{ID: id5, Run: func() runner.Result { return firstMessageOfPrefixLength(id5, payload.Hash(seed, 0x165, uint64(i))) }})
+		}
 		if i%10 == 0 {
 			id4 := fmt.Sprintf("header-with-io-copy/%d", i)
 			out = append(out, runner.Scenario{ID: id4, Run: func() runner.Result { return headerWithCopy(id4, payload.Hash(seed, 0x163, uint64(i))) }})
